@@ -182,6 +182,51 @@ def run_overlap(case):
     return None
 
 
+def gen_snapshot(rng):
+    """an at_root snapshot (of the CURRENT root, or of an earlier one) held open while the trie it was taken from moves on:
+    the snapshot keeps reading the contents its root had"""
+    prior, _ = HX.gen_writes(rng, rng.randint(1, 5))
+    later, _ = HX.gen_writes(rng, rng.randint(1, 4))
+    return {"snapshot": True, "prior": prior, "later": later, "which": rng.choice(["current", "current", "earlier"]),
+            "batched": rng.random() < 0.3}
+
+
+def run_snapshot(case):
+    from trie import HexaryTrie
+    backing = C.FailingDict()
+    t = HexaryTrie(backing)
+    m = {}
+    roots = []
+    for w in case["prior"]:
+        HX.step(t, w, backing)
+        HX.apply_model(m, w)
+        roots.append((bytes(t.root_hash), dict(m)))
+    if not roots:
+        return None
+    root, mm = roots[-1] if case["which"] == "current" else roots[0]
+    try:
+        with t.at_root(root) as snap:
+            if case["batched"]:
+                HX.step(t, ("batch", case["later"], None), backing)
+            else:
+                for w in case["later"]:
+                    HX.step(t, w, backing)
+            for w in case["later"]:
+                HX.apply_model(m, w)
+            if bytes(snap.root_hash) != root:
+                return "an at_root snapshot changed its root when the trie it was taken from was written to"
+            for k in HX.related_keys(set(mm) | set(m)):
+                if snap.get(k) != mm.get(k, b""):
+                    return (f"at_root snapshot of root {root.hex()[:8]} reads {snap.get(k)!r} for key {k.hex()} after the trie moved on; "
+                            f"that root held {mm.get(k, b'')!r}")
+        for k in HX.related_keys(m.keys()):
+            if t.get(k) != m.get(k, b""):
+                return f"the trie reads key {k.hex()} wrongly after a snapshot was held across its writes"
+    except Exception as e:
+        return f"snapshot held across writes raised {type(e).__name__}: {e}"
+    return None
+
+
 def all_budgets_variants(case):
     """thorough: the same history with every failing index for each budgeted operation"""
     out = []
@@ -227,6 +272,13 @@ def check(tier, seed):
         R.count("overlapping_blocks_b_" + oc["b_exit"])
         if bad:
             R.spec_violations.append((bad, oc))
+    for _ in range(40 if tier == "quick" else 400):
+        sc = gen_snapshot(rng)
+        bad = run_snapshot(sc)
+        R.evaluations += 1
+        R.count("snapshot_held_across_writes_" + sc["which"])
+        if bad:
+            R.spec_violations.append((bad, sc))
     shard = 8 if tier == "quick" else 25
     mism, errs, nsh = C.eval_cases("C04", "cases", HX.IMPORTS, "hexary_multi_run", "nat * list (nat * hop)", terms, shard=shard)
     R.shards, R.coq_errors = nsh, errs
@@ -250,6 +302,12 @@ def check(tier, seed):
 
 def replay(payload):
     case = payload["case"]
+    if case.get("snapshot"):
+        for f in ("prior", "later"):
+            case[f] = [HX.tuplify(o) for o in case[f]]
+        bad = run_snapshot(case)
+        print("replay:", "VIOLATES: " + bad if bad else "holds")
+        return 1 if bad else 0
     if case.get("overlap"):
         for f in ("prior", "a", "b"):
             case[f] = [HX.tuplify(o) for o in case[f]]
